@@ -9,6 +9,7 @@ import FsVerif.Model.BufStore
 import FsVerif.Model.PrioReq
 import FsVerif.Model.FleetStore
 import FsVerif.Model.SlotBelt
+import FsVerif.Model.CBelt
 import FsVerif.Model.Node.Source
 import FsVerif.Model.Node.Machine
 import FsVerif.Model.Node.Pack
@@ -43,6 +44,7 @@ inductive M where
   | pack (s : PackState)
   | fleet (s : FleetStore)
   | slot (s : SlotBelt)
+  | cbelt (s : CBelt)
 
 def showRes : PosStore.Res → String
   | .ok => "ok" | .tok i => s!"tok {i}" | .item x => s!"item {x.id}"
@@ -110,6 +112,25 @@ def slotOp (w : List String) : Option SlotBelt.Op :=
   | ["ev"] => some .ev
   | ["final"] => some .final
   | _ => none
+
+def cbeltOp (w : List String) : Option CBelt.Op :=
+  match w with
+  | ["rp", p] => do pure (.reservePut (← parseNat p))
+  | ["rg", p] => do pure (.reserveGet (← parseNat p))
+  | ["rp", p, _] => do pure (.reservePut (← parseNat p))
+  | ["rg", p, _, _] => do pure (.reserveGet (← parseNat p))
+  | ["put", p, t, i, k, _] => do pure (.put (← parseNat p) (← parseNat t) { id := (← parseNat i), kind := (← parseNat k) })
+  | ["get", p, t] => do pure (.get (← parseNat p) (← parseNat t))
+  | ["cp", t] => do pure (.cancelPut (← parseNat t))
+  | ["cg", t] => do pure (.cancelGet (← parseNat t))
+  | ["adv", d] => do pure (.adv (← parseNat d))
+  | ["ev"] => some .ev
+  | ["final"] => some .final
+  | _ => none
+
+def showResC : CBelt.Res → String
+  | .ok => "ok" | .tok i => s!"tok {i}" | .item x => s!"item {x.id}"
+  | .err e => s!"err {e.name}" | .unit => "-"
 
 def showResS : SlotBelt.Res → String
   | .ok => "ok" | .tok i => s!"tok {i}" | .item x => s!"item {x.id}"
@@ -221,6 +242,10 @@ def stepLine (m : M) (line : String) : M × String :=
     match parseNat cap, parseNat delay with
     | some c, some d => (.slot (SlotBelt.init { cap := c, delay := d }), "new")
     | _, _ => (m, "bad-op")
+  | ["new", "cbelt", cap, p1, acc] =>
+    match parseNat cap, parseNat p1 with
+    | some c, some d => (.cbelt (CBelt.init { cap := c, p1 := d, acc := acc != "0" }), "new")
+    | _, _ => (m, "bad-op")
   | ["new", "slot", cap, delay] =>
     match parseNat cap, parseNat delay with
     | some c, some d => (.slot (SlotBelt.init { cap := c, delay := d }), "new")
@@ -299,6 +324,23 @@ def stepLine (m : M) (line : String) : M × String :=
           let (s', r) := s.step op
           let head := if op == .ev then s!"t={s'.now}" else showResS r
           (.slot s', s!"{head} | {showFired s'.fired} | {showNats s'.newReady}" ++ (if s'.crashed then " CRASHED" else "") ++ (if s'.flagged then " FLAGGED" else ""))
+        | none => (m, "bad-op")
+    | .cbelt s =>
+      if s.gaveUp then (m, "GAVEUP") else
+      match w with
+      | ["stat"] => (m, s!"stat {s.avgNum} {s.avgDen} {s.level} {s.now}")
+      | ["probe", "occ"] => (m, s!"probe {s.level}")
+      | ["probe", "ready"] => (m, s!"probe {showNats (s.ready.map (·.item.id))}")
+      | ["probe", "mode"] => (m, s!"probe {s.st.name} {if s.noacc then "True" else "False"}")
+      | ["probe", "pat"] => (m, s!"probe {s.showPattern}")
+      | ["probe", _] => (m, "probe skip")
+      | _ =>
+        match cbeltOp w with
+        | some op =>
+          let (s', r) := s.step op
+          let head := if op == .ev then s!"t={s'.now}" else showResC r
+          if s'.gaveUp then (.cbelt s', "GAVEUP") else
+          (.cbelt s', s!"{head} | {showFired s'.fired} | {showNats s'.newReady}" ++ (if s'.flagged then " FLAGGED" else ""))
         | none => (m, "bad-op")
     | .fleet s =>
       match w with
